@@ -10,6 +10,7 @@ from dalimc.core.runner import new_result, add_violation, observe, sample
 from dalimc.core.explorer import explore
 from dalimc.env import device103 as D
 from dalimc.env.gear102 import run_sequence
+from . import _partner as P
 
 ID = "C13"
 OPTIMISED_STRIDE = {"quick": 8, "thorough": 16}      # every k-th shard once more in an interpreter started with -O
@@ -364,6 +365,7 @@ def shards(tier):
     out.append(("enums",))
     for part in range(4):
         out.append(("addr_sweep", part))
+    out += P.partner_shards(PARTNERS, [0, 1, 3, "alt"])
     return out
 
 
@@ -422,7 +424,37 @@ def run_addr_sweep(res, part):
     sample(res, {"address_sweep_part": part, "pairs": len(pairs)})
 
 
+def _partner_setfilter():
+    from dali.device.sequences import SetEventFilters
+    from dali.address import DeviceShort, InstanceNumber
+    F16, F24 = user_enums()
+    dev = D.Device(short=9, instances=[D.Instance(itype=1, filt=0x010203), D.Instance(itype=3, filt=0x040506), D.Instance(itype=1, filt=0x070809)])
+    dev.dtr0 = dev.dtr1 = dev.dtr2 = 0x3C
+    return SetEventFilters(DeviceShort(9), InstanceNumber(2), F24(0xA1B2C3)), D.Bus24([dev]), lambda: [(i.filter, i.scheme) for i in dev.instances]
+
+
+def _partner_input():
+    from dali.device.sequences import query_input_value
+    from dali.address import DeviceShort, InstanceNumber
+    dev = D.Device(short=9, instances=[D.Instance(itype=4, resolution=19, value=0x5A5A5)])
+    return query_input_value(DeviceShort(9), InstanceNumber(0)), D.Bus24([dev]), lambda: [(i.filter, i.scheme) for i in dev.instances]
+
+
+def _partner_scheme():
+    from dali.device.sequences import SetEventSchemes
+    from dali.address import DeviceShort, InstanceNumber
+    dev = D.Device(short=9, instances=[D.Instance(itype=1, scheme=0), D.Instance(itype=1, scheme=1)])
+    return SetEventSchemes(DeviceShort(9), InstanceNumber(1), 3), D.Bus24([dev]), lambda: [(i.filter, i.scheme) for i in dev.instances]
+
+
+PARTNERS = [("SetEventFilters(24-bit user enum)", _partner_setfilter), ("query_input_value(19 bits)", _partner_input), ("SetEventSchemes", _partner_scheme)]
+PARTNERED = [("schemes",), ("qfilters", "quick", "wide-first"), ("input", 10, "quick"), ("input", 25, "quick"), ("scan", 1, 0, 10, "quick")]
+
+
 def run_shard(shard):
+    if shard[0] == "partnered":
+        import sys
+        return P.run_partnered(sys.modules[__name__], shard, PARTNERS, PARTNERED)
     from dali.exceptions import DALISequenceError
     res = new_result()
     k = shard[0]
